@@ -192,9 +192,10 @@ class Decoder:
             self.inflate = zlib.decompressobj()
             self.delayed = False
         elif k.cmp == 'zlib@openssh.com':
+            # a new compression context per key exchange (RFC 4253 s6.2);
+            # before authentication completes nothing is compressed
             self.delayed = True
-            if self.inflate is None or self.auth_seen is False:
-                self.inflate = None
+            self.inflate = zlib.decompressobj() if self.auth_seen else None
         else:
             self.inflate = None
             self.delayed = False
